@@ -373,3 +373,14 @@ Proof.
   destruct (bscan_all_EI scr _ _ _ _ _ (binit_WF mx scr str) HI0 E) as ((Hra & _ & Hn) & He).
   split; [apply Hn; exact He|exact Hra].
 Qed.
+
+Theorem C04_check_sound_buffered_proof mx scr str o : mx >= 2 ->
+  brun mx scr str = Some o -> C04_check mx scr o = true.
+Proof.
+  intros Hm H. destruct (C04_buffered_proof mx scr str Hm) as (o' & H' & A & B & C & D).
+  rewrite H in H'. inversion H'; subst o'. unfold C04_check.
+  rewrite B, A, C, D. rewrite !Nat.eqb_refl.
+  assert (forall l, lines_eqb l l = true) as R.
+  { intros l. apply (list_eqb_eq bytes_eqb bytes_eqb_eq). reflexivity. }
+  rewrite !R. reflexivity.
+Qed.
